@@ -2,7 +2,7 @@
    Compiled on every run as build/C34/Gen_zz_props.v, after Gen_cti_basic_method.v. *)
 From Coq Require Import ZArith List Bool.
 From Verif Require Import Common.GoInt Common.GoStr GoLite.Syntax GoLite.Sem GoLite.Templates C34.Model C34.Proof.
-Require Import Gen_cti_basic_method.
+From Gen Require Import Gen_cti_basic_method.
 Import ListNotations.
 Open Scope Z_scope.
 
